@@ -545,7 +545,7 @@ def cfg_text(constants, invariants=(), spec="Spec", overrides=None, properties=(
     return "\n".join(lines) + "\n" + extra
 
 
-def tlc_cases(module, constants, invariants, overrides=None, mc_defs=None, timeout=1800, heap="6g", workers=1, args=()):
+def tlc_cases(module, constants, invariants, overrides=None, mc_defs=None, timeout=1800, heap="6g", workers=1, args=(), spec="Spec"):
     """Run an Init-only (or small) spec whose invariant `Emit` prints one JSON case per state.
     Returns (TLCResult, [cases]).  The other invariants are the laws checked on every case."""
     files = {}
@@ -553,7 +553,7 @@ def tlc_cases(module, constants, invariants, overrides=None, mc_defs=None, timeo
     if mc_defs:
         mod = "MC_" + module
         files[mod + ".tla"] = f"---- MODULE {mod} ----\nEXTENDS {module}\n{mc_defs}\n====\n"
-    files[mod + ".cfg"] = cfg_text(constants, invariants, overrides=overrides)
+    files[mod + ".cfg"] = cfg_text(constants, invariants, overrides=overrides, spec=spec)
     d = stage_spec([module], files)
     r = run_tlc(d, mod, mod + ".cfg", workers=workers, timeout=timeout, heap=heap, want_trace=True, args=args)
     cases = printed_json(r.out)
